@@ -23,7 +23,7 @@ ASSUMPTIONS = ['PyWavelets 1.10 waverec/waverec2 is the specification, including
                'signal sizes bounded (1-D <= 130, 2-D sides <= 33), J <= 4']
 TIMEOUT = {'quick': 900, 'thorough': 3000}
 WORKER_BUDGET = {'quick': 600, 'thorough': 2400}
-MIN_HELD = {'quick': 300, 'thorough': 1500}
+MIN_HELD = {'quick': 300, 'thorough': 68511}
 KF_PER = c01.KF_PER
 
 
